@@ -80,4 +80,9 @@ MUTANTS = [
 """, """    except (ValueError, KeyError) as err:
         raise _bad() from err
 """), (F, "def uuid_to_short_str(uuid_obj):", "def _bad():\n    return TypeError('not a short uuid')\n\n\ndef uuid_to_short_str(uuid_obj):")]},
+    # the digit loop as a generator helper
+    {"id": 'c20-n-generator-digits', "expect": 'silent', "edits": [(F, '    out = ""\n    alpha_len = len(_ALPHABET)\n    while number:\n        number, digit = divmod(number, alpha_len)\n        out += _ALPHABET[digit]\n    remainder_len = _SHORT_GUID_LEN - len(out)\n    out += _ALPHABET[0] * remainder_len\n    return out\n', '    out = "".join(_ALPHABET[digit] for digit in _iter_digits(number))\n    return out.ljust(_SHORT_GUID_LEN, _ALPHABET[0])\n\n\ndef _iter_digits(number):\n    base = len(_ALPHABET)\n    while number:\n        number, digit = divmod(number, base)\n        yield digit\n')]},
+    {"id": 'c20-generator-digits-rjust', "expect": 'fire', "edits": [(F, '    out = ""\n    alpha_len = len(_ALPHABET)\n    while number:\n        number, digit = divmod(number, alpha_len)\n        out += _ALPHABET[digit]\n    remainder_len = _SHORT_GUID_LEN - len(out)\n    out += _ALPHABET[0] * remainder_len\n    return out\n', '    out = "".join(_ALPHABET[digit] for digit in _iter_digits(number))\n    return out.rjust(_SHORT_GUID_LEN, _ALPHABET[0])\n\n\ndef _iter_digits(number):\n    base = len(_ALPHABET)\n    while number:\n        number, digit = divmod(number, base)\n        yield digit\n')]},
+    {"id": 'c20-generator-digits-reversed', "expect": 'fire', "edits": [(F, '    out = ""\n    alpha_len = len(_ALPHABET)\n    while number:\n        number, digit = divmod(number, alpha_len)\n        out += _ALPHABET[digit]\n    remainder_len = _SHORT_GUID_LEN - len(out)\n    out += _ALPHABET[0] * remainder_len\n    return out\n', '    out = "".join(_ALPHABET[digit] for digit in reversed(list(_iter_digits(number))))\n    return out.ljust(_SHORT_GUID_LEN, _ALPHABET[0])\n\n\ndef _iter_digits(number):\n    base = len(_ALPHABET)\n    while number:\n        number, digit = divmod(number, base)\n        yield digit\n')]},
+    {"id": 'c20-generator-base-58', "expect": 'fire', "edits": [(F, '    out = ""\n    alpha_len = len(_ALPHABET)\n    while number:\n        number, digit = divmod(number, alpha_len)\n        out += _ALPHABET[digit]\n    remainder_len = _SHORT_GUID_LEN - len(out)\n    out += _ALPHABET[0] * remainder_len\n    return out\n', '    out = "".join(_ALPHABET[digit] for digit in _iter_digits(number))\n    return out.ljust(_SHORT_GUID_LEN, _ALPHABET[0])\n\n\ndef _iter_digits(number):\n    base = len(_ALPHABET) + 1\n    while number:\n        number, digit = divmod(number, base)\n        yield digit\n')]},
 ]
